@@ -3,6 +3,7 @@ import ClaripyProofs.Lemmas.VSA.AddSub
 import ClaripyProofs.Lemmas.VSA.Cmp
 import ClaripyProofs.Lemmas.VSA.NotExt
 import ClaripyProofs.Lemmas.VSA.ShiftSound
+import ClaripyProofs.Lemmas.VSA.Signed
 /-!
 # C21 — strided-interval transfer functions are sound
 
@@ -92,6 +93,20 @@ theorem C21_ucmp_sound (op : CmpOp) (hop : op = .ult ∨ op = .ule ∨ op = .ugt
     (ha : a.si.WF) (hb : b.si.WF) (h : applyCmp op a b = .ok br) (x y : Nat) (hx : a.si.mem x) (hy : b.si.mem y) :
     br.has (concCmp op a.si.bits x y) = true :=
   ucmp_sound op hop a b br ha hb h x y hx hy
+
+/-- `SLT`, `SLE`, `SGT`, `SGE`: the BoolResult admits every truth value that occurs.  The operands are in the form the
+constructor returns (`renorm` is the identity on them: a full circle is written `[0, 2^w - 1]`), which is the only form
+Python can hold; `new_renorm` shows every constructed interval has it. -/
+theorem C21_scmp_sound (op : CmpOp) (hop : op = .slt ∨ op = .sle ∨ op = .sgt ∨ op = .sge) (a b : AV) (br : BoolRes)
+    (ha : a.si.WF) (hb : b.si.WF) (hbits : a.si.bits = b.si.bits) (hna : a.si.renorm = a.si) (hnb : b.si.renorm = b.si)
+    (h : applyCmp op a b = .ok br) (x y : Nat) (hx : a.si.mem x) (hy : b.si.mem y) :
+    br.has (concCmp op a.si.bits x y) = true :=
+  scmp_sound op hop a b br ha hb hbits hna hnb h x y hx hy
+
+/-- non-vacuity: an interval that straddles both poles against one in the negative half -/
+example : (SI.new 4 3 6 1).WF ∧ (SI.new 4 3 6 1).renorm = SI.new 4 3 6 1 ∧ (SI.new 4 3 6 1).mem 12 ∧ (SI.new 4 2 9 13).mem 11 ∧
+    (SI.new 4 3 6 1).signedBounds = .ok [(6, 6), (-7, 1)] ∧
+    (SI.new 4 3 6 1).SLT (SI.new 4 2 9 13) = .ok .m := by decide
 
 /-- non-vacuity: a wrapping interval with a stride that does not divide 2^w -/
 example : (SI.new 3 3 6 4).WF ∧ (SI.new 3 3 6 4).mem 1 ∧ (SI.new 3 3 6 4).bitwiseNot = .ok (SI.new 3 3 3 1) ∧
